@@ -178,7 +178,8 @@ def r3(ctx):
             cmps = [comparison(a) for a in alts if const_int_of(a) != 0]
             if cmps and all(c and c[0] == "==" and {fmt_short(c[1]).split(".", 1)[-1] if "pending" in fmt_short(c[1]) else fmt_short(c[1]),
                                                     fmt_short(c[2]).split(".", 1)[-1] if "pending" in fmt_short(c[2]) else fmt_short(c[2])} >= {"node.key"} and
-                            any("self.pending" in fmt_short(x) for x in (c[1], c[2])) for c in cmps) and any(const_int_of(a) == 0 for a in alts):
+                            any("self.pending" in fmt_short(x) for x in (c[1], c[2])) for c in cmps) and \
+                    (any(const_int_of(a) == 0 for a in alts) or all(any(isinstance(y, tuple) and y and y[0] == "as" and y[2] == "Some" for x in (c[1], c[2]) for y in walk(x)) for c in cmps)):
                 same_key = True
                 if (bi, g.bool_edges(bi)[1]) not in flag_edges:
                     flag_edges.append((bi, g.bool_edges(bi)[1]))
